@@ -2,7 +2,7 @@
    against the C definitions).  Only statements, each closed by [exact] of a lemma of FtocAbiProofs.v or by evaluation
    of the decidable predicate on the REGENERATED table Gen_C20f.abi_table, each followed by Print Assumptions. *)
 From Coq Require Import ZArith List String.
-From CgnsV Require Import ListX Ftoc FtocAbi FtocAbiProofs FtocGoto FtocGotoProofs Gen_C20f.
+From CgnsV Require Import ListX Ftoc FtocAbi FtocAbiProofs FtocGoto FtocGotoProofs FtocMod FtocModProofs Gen_C20f.
 Import ListNotations.
 Local Open Scope Z_scope.
 
@@ -100,6 +100,32 @@ Theorem C20f_goto_blocks_forward :
   List.length (filter (fun s => match s with GCall _ _ _ => true | _ => false end) Gen_C20f.gorel_f_stmts) = 21%nat.
 Proof. exact (blocks_forward Gen_C20f.goto_f_stmts Gen_C20f.gorel_f_stmts C20f_goto_blocks_checked). Qed.
 Print Assumptions C20f_goto_blocks_forward.
+
+(* ---- the Fortran-implemented wrappers (module procedures that call a C function through a nested BIND(C) interface) *)
+
+(* mp_ok holds of every regenerated row except the procedures named in FtocMod.mp_known *)
+Theorem C20f_modproc_table_checked : mp_table_ok Gen_C20f.mp_rows = true.
+Proof. vm_compute. reflexivity. Qed.
+Print Assumptions C20f_modproc_table_checked.
+
+(* for every such procedure that is not excused: it has exactly one dummy more (ier) than the C function has parameters; no
+   INTENT(OUT) dummy is left unassigned; every output of the C call lands in a dummy -- directly, or through a local temporary
+   that IS copied to a dummy afterwards -- and a CHARACTER temporary is at least as large as what the C function may write *)
+Theorem C20f_modproc_outputs_reach_caller : forall r, In r Gen_C20f.mp_rows -> mp_row_known r = false ->
+  (m_ncparams r <> -1 -> m_ndummies r = m_ncparams r + 1) /\
+  m_unassigned r = [] /\
+  (forall pos k size, In (pos, k, size) (m_outs r) ->
+     (k = OutDirect \/ k = OutCopied) /\
+     (k = OutCopied -> size = -1 \/ size = 0 \/ mp_out_max (m_cfunc r) pos <= size)).
+Proof. exact (fun r => mp_row_sound Gen_C20f.mp_rows r C20f_modproc_table_checked). Qed.
+Print Assumptions C20f_modproc_outputs_reach_caller.
+
+(* literal copies of three excused rows fail mp_ok: the exception list is not vacuous *)
+Theorem C20f_modproc_known_refuted : mp_ok w_coord_id = false /\ mp_ok w_discrete_ptset_write = false /\ mp_ok w_family_name_read = false /\
+  arity_ok w_coord_id = false /\ mp_row_known w_coord_id = true /\ mp_row_known w_discrete_ptset_write = true /\
+  mp_row_known w_family_name_read = true.
+Proof. exact mp_known_refuted. Qed.
+Print Assumptions C20f_modproc_known_refuted.
 
 (* hypotheses are satisfiable: the table contains interface rows that are not excused *)
 Example C20f_nonvacuous : existsb (fun r => match r with AIface i => andb (negb (arow_known r)) (negb (a_variadic i)) | _ => false end)
